@@ -233,6 +233,11 @@ class Contract:
             h.part = ""
         self.uses = list(uses)
         self.err = err
+        # sylvia's dispatch arm for an interface has no error conversion unless the interface is
+        # bridged with `: custom(msg)`: the interface's Error must be the contract's error type
+        for u in self.uses:
+            if not u.custom_msg:
+                u.err = err
         self.custom_chain = custom_chain
         self.generic = generic  # None or concrete type substituted for T
         self.overrides = list(overrides)
@@ -791,7 +796,7 @@ def emit_spec(c):
             )
         else:
             rs = "None"
-        wire = h.fn if (h.kind in ("exec", "query", "sudo") and is_regular(h.fn)) else ""
+        wire = wire_of(h.fn) if h.kind in ("exec", "query", "sudo") else ""
         hs.append(
             'HandlerSpec { kind: Kind::%s, part: "%s", fn_name: "%s", wire: "%s", regular: %s, args: %s, ret: "%s", reply: %s }'
             % (
@@ -1274,7 +1279,173 @@ def family_f3(rng):
     return [], cs
 
 
-FAMILIES = {"f3": family_f3}
+def iface_lib_f1():
+    alpha = Iface(
+        "alpha",
+        [
+            Handler("exec", "alpha_exec", [Arg("x", "u64")]),
+            Handler("exec", "ping_alpha"),
+            Handler("query", "alpha_query", [Arg("who", "String")], ret="QResp"),
+            Handler("sudo", "alpha_sudo", [Arg("n", "u32")]),
+        ],
+    )
+    beta = Iface(
+        "beta",
+        [
+            Handler("exec", "beta_exec", [Arg("coins", "Vec<Coin>"), Arg("flag", "bool")]),
+            Handler("query", "beta_q", [Arg("a", "i32"), Arg("b", "i32")], ret="String", failarg=True),
+            Handler("sudo", "beta_sudo"),
+        ],
+        assoc=["ExecC", "QueryC"],
+    )
+    gamma = Iface(
+        "gamma",
+        [
+            Handler("exec", "gamma_put", [Arg("item", "T")]),
+            Handler("query", "gamma_echo", [Arg("item", "T")], ret="T"),
+        ],
+        assoc=["T"],
+    )
+    delta = Iface(
+        "delta",
+        [
+            Handler("exec", "step2", [Arg("a", "u8")]),
+            Handler("exec", "v2"),
+            Handler("query", "get_v2_info", ret="u64"),
+            Handler("sudo", "x_y_z"),
+            Handler("sudo", "sha256sum", [Arg("data_in", "Binary")]),
+        ],
+    )
+    eps = Iface(
+        "eps",
+        [
+            Handler("query", "eps_one", ret="bool"),
+            Handler("query", "eps_two", [Arg("list", "Vec<u32>")], ret="Vec<u32>", failarg=True),
+        ],
+    )
+    zeta = Iface(
+        "zeta",
+        [
+            Handler("exec", "poke"),
+            Handler("sudo", "pong"),
+            Handler("query", "pang", [Arg("script", "Script")], ret="String"),
+        ],
+    )
+    weird = Iface(
+        "weird",
+        [
+            Handler("exec", "_lead"),
+            Handler("exec", "dbl__us", [Arg("_x", "u32")]),
+            Handler("query", "tail_", ret="u64"),
+            Handler("sudo", "__both__"),
+        ],
+    )
+    return dict(alpha=alpha, beta=beta, gamma=gamma, delta=delta, eps=eps, zeta=zeta, weird=weird)
+
+
+def family_f1(rng):
+    """dispatch: all handler kinds, 0..3 interfaces, shared names across kinds, odd names, generics"""
+    lib = iface_lib_f1()
+    cs = []
+    T = ("dispatch", "proxy")
+
+    pinge = Iface("pinge", [Handler("exec", "ping"), Handler("sudo", "pinge_sudo")])
+    pingq = Iface("pingq", [Handler("query", "ping", [Arg("script", "Script")], ret="String")])
+    lib["pinge"] = pinge
+    lib["pingq"] = pingq
+
+    cs.append(
+        Contract(
+            "pa",
+            "f1",
+            [
+                Handler("instantiate", "instantiate", [Arg("a", "u32")]),
+                Handler("migrate", "migrate", [Arg("a", "u32")]),
+                Handler("exec", "go"),
+                Handler("exec", "transfer", [Arg("to", "Addr"), Arg("amount", "Uint128"), Arg("memo", "Option<String>")]),
+                Handler("exec", "swap_args", [Arg("first", "String"), Arg("second", "String")]),
+                Handler("exec", "swap_nums", [Arg("lo", "u32"), Arg("hi", "u32")]),
+                Handler("query", "balance_of", [Arg("who", "Addr")], ret="u64", failarg=True),
+                Handler("query", "probe", [Arg("x", "u32")], ret="u64", failarg=True),
+                Handler("sudo", "nudge", [Arg("n", "u64")]),
+                Handler("sudo", "ping"),
+            ],
+            uses=[Use(pinge), Use(pingq)],
+            err="own",
+            tags=T + ("regular",),
+        )
+    )
+    cs.append(Contract("pb", "f1", std_handlers(rng), uses=[Use(lib["alpha"])], err="std", tags=T + ("regular",)))
+    cs.append(
+        Contract(
+            "pc",
+            "f1",
+            std_handlers(rng, extra=[Handler("exec", "foo2", [Arg("n", "u32")]), Handler("query", "get_v3_data", ret="String"), Handler("sudo", "a_b_c")]),
+            uses=[Use(lib["alpha"], err="own"), Use(lib["beta"])],
+            err="own",
+            tags=T + ("regular",),
+        )
+    )
+    cs.append(Contract("pd", "f1", std_handlers(rng), uses=[Use(lib["delta"]), Use(lib["eps"], err="own")], err="own", tags=T + ("regular",)))
+    cs.append(Contract("pe", "f1", std_handlers(rng, migrate=False), uses=[Use(lib["gamma"], t="Pt"), Use(lib["alpha"], alias=True)], err="std", tags=T + ("regular",)))
+    cs.append(
+        Contract(
+            "pf",
+            "f1",
+            [
+                Handler("instantiate", "instantiate", [Arg("first", "T")]),
+                Handler("exec", "go"),
+                Handler("exec", "put", [Arg("item", "T"), Arg("times", "u8")]),
+                Handler("query", "echo", [Arg("item", "T")], ret="T"),
+                Handler("query", "probe", [Arg("x", "u32")], ret="u64", failarg=True),
+                Handler("sudo", "nudge"),
+                Handler("migrate", "migrate"),
+            ],
+            generic="Kd",
+            err="own",
+            tags=T + ("regular",),
+        )
+    )
+    cs.append(
+        Contract(
+            "pg",
+            "f1",
+            std_handlers(rng, extra=[Handler("query", "poke", [Arg("script", "Script")], ret="String"), Handler("sudo", "pang"), Handler("exec", "pong")]),
+            uses=[Use(lib["zeta"])],
+            err="own",
+            tags=T + ("regular", "shared_names"),
+        )
+    )
+    cs.append(Contract("ph", "f1", std_handlers(rng, extra=[Handler("exec", "_under"), Handler("query", "q__q", ret="bool")]), uses=[Use(lib["weird"])], err="std", tags=("dispatch", "irregular")))
+    cs.append(Contract("pi", "f1", std_handlers(rng, sudo=False), uses=[Use(lib["alpha"]), Use(lib["delta"], err="own"), Use(lib["eps"])], err="own", tags=T + ("regular",)))
+    cs.append(Contract("pj", "f1", std_handlers(rng, sudo=False, migrate=False), uses=[Use(lib["beta"], err="own"), Use(lib["gamma"], t="String")], err="own", tags=T + ("regular",)))
+    # seeded random programs: random handler sets over the closed type set
+    words = ["mint", "burn", "lock", "vote", "claim", "stake", "wrap", "list", "info", "cfg", "set_x", "get_y", "do_it", "run9", "ab12_cd"]
+    for k in range(4):
+        used = {"go", "probe", "nudge", "migrate", "instantiate"}
+        extra = []
+        for kind in ("exec", "query", "sudo"):
+            for _ in range(rng.randint(1, 3)):
+                nm = rng.choice([w for w in words if w not in used])
+                # the same name may come back in another kind
+                if rng.random() < 0.7:
+                    used.add(nm)
+                if any(h.kind == kind and h.fn == nm for h in extra):
+                    continue
+                if any(h.fn == nm for h in extra):
+                    continue
+                args = rnd_args(rng, rng.randint(0, 4))
+                if kind == "query":
+                    extra.append(Handler("query", nm, args, ret=rng.choice(RET_TYPES), failarg=rng.random() < 0.5))
+                else:
+                    extra.append(Handler(kind, nm, args))
+        pool = [lib[n] for n in ("alpha", "beta", "delta", "eps")]
+        uses = [Use(i, err=rng.choice(["std", "own"])) for i in rng.sample(pool, rng.randint(0, 3))]
+        cs.append(Contract("pr" + "abcd"[k], "f1", std_handlers(rng, extra=extra, migrate=rng.random() < 0.7), uses=uses, err=rng.choice(["own", "std"]), tags=T + ("regular",)))
+    return list(lib.values()), cs
+
+
+FAMILIES = {"f1": family_f1, "f3": family_f3}
 
 
 def emit_family(name, rng):
